@@ -22,6 +22,11 @@ struct Case {
     pipelined: usize,
     /// the stream ends inside one more pipelined command (only used with reject)
     partial_tail: bool,
+    /// what follows the pipelined queries: 0 nothing, 1 COM_QUIT, 2 an EXECUTE of a statement that
+    /// was never prepared (the library ends the connection), 3 a command cut off inside its packet
+    tail: u8,
+    /// the handshake response arrives in a read of its own (false: one read carries everything)
+    split: bool,
 }
 
 fn run_case(c: &Case, st: &mut Stats) -> Result<(), Violation> {
@@ -32,19 +37,24 @@ fn run_case(c: &Case, st: &mut Stats) -> Result<(), Violation> {
     } else {
         handshake320(c.lo, 0xffffff, &c.user, &c.trailer)
     };
-    let cmds: Vec<ClientCmd> = (0..c.pipelined).map(|i| q(format!("q{}", i).as_bytes())).collect();
+    let mut cmds: Vec<ClientCmd> = (0..c.pipelined).map(|i| q(format!("q{}", i).as_bytes())).collect();
+    match c.tail {
+        1 => cmds.push(quit()),
+        2 => cmds.push(ClientCmd::new(cmd_execute(77, 0, 1, &[]))),
+        _ => {}
+    }
     let mut conv = Conv::new(cmds);
     conv.handshake = frame(c.seq, &payload).0;
     conv.hs_seq = c.seq;
     let s = conv.stream();
     let mut bytes = s.bytes.clone();
-    if c.partial_tail {
+    if c.partial_tail || c.tail == 3 {
         // a further command cut off inside its payload
         let f = frame(0, &with_byte(COM_QUERY, b"SELECT 'never completed'")).0;
         bytes.extend_from_slice(&f[..f.len() - 5]);
     }
     let stream = Arc::new(bytes);
-    let mut sim = sim_for(&stream, vec![]);
+    let mut sim = sim_for(&stream, if c.split { vec![s.ends[0]] } else { vec![] });
     sim.log_ops = false;
     let mut cfg = ConnCfg::new(std_behave());
     if c.reject {
@@ -142,6 +152,24 @@ fn run_case(c: &Case, st: &mut Stats) -> Result<(), Violation> {
         for i in 0..c.pipelined {
             exp.push(Cb::Query(format!("q{}", i)));
         }
+        if c.tail >= 2 {
+            // the connection ends with an error behind the pipelined queries: whatever was
+            // accepted and served before must have reached the client all the same
+            st.bump("accepted_then_connection_error");
+            if o.res.is_ok() {
+                return Err(Violation::new("tail-result", format!("run_on returned Ok although the conversation ends {}", if c.tail == 2 { "with an EXECUTE of an unknown statement" } else { "inside a packet" })));
+            }
+            let got: Vec<Cb> = cbs.iter().map(|x| (*x).clone()).collect();
+            if got != exp {
+                return Err(Violation::new("tail-callbacks", format!("callbacks {:?}", got.iter().map(cb_short).collect::<Vec<_>>())));
+            }
+            let d = decode_all(out, &conv, &s.last_seq, c.pipelined, true).map_err(|e| Violation::new("accept-reply-before-error", format!("the connection ended with an error after an accepted handshake and {} served queries, but the client did not receive their replies: {}", c.pipelined, e)))?;
+            if !matches!(d.auth, Unit::Ok { .. }) {
+                return Err(Violation::new("accept-reply", format!("accepted client received {:?}", d.auth)));
+            }
+            trailing_is_at_most_one_err(&d).map_err(|e| Violation::new("tail-output", e))?;
+            return Ok(());
+        }
         let d = check_exact(&o, &conv, &s.last_seq, &exp)?;
         if !matches!(d.auth, Unit::Ok { .. }) {
             return Err(Violation::new("accept-reply", format!("accepted client received {:?}", d.auth)));
@@ -177,6 +205,8 @@ impl CapsSweep {
             reject: d[2] == 1,
             pipelined: 1,
             partial_tail: false,
+            tail: 0,
+            split: false,
         })
     }
 }
@@ -239,6 +269,8 @@ impl Users {
             reject: d[3] == 1,
             pipelined: (d[4] % 3) as usize,
             partial_tail: d[4] == 3 && d[3] == 1,
+            tail: 0,
+            split: false,
         }
     }
 }
@@ -286,6 +318,8 @@ impl Family for SeqIds {
                 reject: d[2] == 1,
                 pipelined: 2,
                 partial_tail: false,
+                tail: 0,
+                split: false,
             },
             st,
         )
@@ -296,16 +330,58 @@ impl Family for SeqIds {
     }
 }
 
+/// what is pipelined behind the handshake response, and how it ends: 0..2 queries followed by
+/// nothing / COM_QUIT / a command the library refuses by ending the connection / a command cut off
+/// by the end of the stream; all in one read or with the handshake response in a read of its own
+struct Tails;
+impl Tails {
+    fn case(idx: u64) -> Case {
+        let d = digits(idx, &[2, 2, 3, 4, 2, 2]);
+        let is41 = d[0] == 0;
+        Case {
+            lo: if is41 { 0xa285 } else { 0x0005 },
+            hi: 0,
+            user: b"tail".to_vec(),
+            trailer: vec![0],
+            seq: 1,
+            tls: d[4] == 1,
+            reject: d[1] == 1,
+            pipelined: d[2] as usize,
+            partial_tail: false,
+            tail: d[3] as u8,
+            split: d[5] == 1,
+        }
+    }
+}
+impl Family for Tails {
+    fn name(&self) -> String {
+        "pipelined-tails".into()
+    }
+    fn len(&self) -> u64 {
+        2 * 2 * 3 * 4 * 2 * 2
+    }
+    fn run(&self, idx: u64, st: &mut Stats) -> Result<(), Violation> {
+        st.nontrivial += 1;
+        st.bump("pipelined_tails");
+        run_case(&Self::case(idx), st)
+    }
+    fn describe(&self, idx: u64) -> J {
+        let c = Self::case(idx);
+        let then = ["nothing", "COM_QUIT", "EXECUTE of an unknown statement", "a command cut off by the end of the stream"][c.tail as usize];
+        json!({"layout": if c.lo & 0x200 != 0 {"4.1"} else {"3.20"}, "reject": c.reject, "pipelined_queries": c.pipelined, "then": then, "handshake_in_its_own_read": c.split, "tls_configured": c.tls})
+    }
+}
+
 pub fn build(_quick: bool) -> Check {
     Check {
         id: "C11",
         level: "model_checking",
-        rule: "handshake responses: all 2^16 lower capability words x 4 upper words (the layout follows CLIENT_PROTOCOL_41) x accept/reject, without and with a TLS configuration (plaintext clients); 262 user names (empty, every single non-NUL byte, 255 and 70000 bytes, non-UTF-8) x 8 trailers x both layouts x accept/reject x 0..2 pipelined commands (and, when rejecting, a further command cut off inside its packet) x TLS configured or not; every handshake sequence id. Oracle: first packet is a protocol-10 greeting with id 0 accepted by refwire and mysql_common, CLIENT_PROTOCOL_41 set, CLIENT_SSL set iff a TLS configuration is offered; after_authentication exactly once with the exact user bytes before any command; reject -> ERR 1045/28000 at id+1, run_on returns the shim's error, no command callback; accept -> OK at id+1 and the pipelined commands are served; CLIENT_SSL without a TLS configuration -> Err and no callback at all.".into(),
+        rule: "handshake responses: all 2^16 lower capability words x 4 upper words (the layout follows CLIENT_PROTOCOL_41) x accept/reject, without and with a TLS configuration (plaintext clients); 262 user names (empty, every single non-NUL byte, 255 and 70000 bytes, non-UTF-8) x 8 trailers x both layouts x accept/reject x 0..2 pipelined commands (and, when rejecting, a further command cut off inside its packet) x TLS configured or not; every handshake sequence id; 0..2 pipelined queries followed by nothing / COM_QUIT / an EXECUTE of an unknown statement / a command cut off by the end of the stream, in one read or with the handshake response in a read of its own, accept and reject. Oracle: first packet is a protocol-10 greeting with id 0 accepted by refwire and mysql_common, CLIENT_PROTOCOL_41 set, CLIENT_SSL set iff a TLS configuration is offered; after_authentication exactly once with the exact user bytes before any command; reject -> ERR 1045/28000 at id+1, run_on returns the shim's error, no command callback; accept -> OK at id+1 and the pipelined commands are served (their replies delivered even when the connection then ends with an error); CLIENT_SSL without a TLS configuration -> Err and no callback at all.".into(),
         assumptions: vec!["masks with CLIENT_SSL against a TLS-offering shim are C18's scenarios (they need a real TLS client)".into()],
         bounds: json!({"capability_words": 65536, "upper_words": 4, "users": 262, "trailers": 8}),
         exhaustive: true,
         caps_hit: vec![],
-        families: vec![Box::new(CapsSweep { tls: false }), Box::new(CapsSweep { tls: true }), Box::new(Users::new()), Box::new(SeqIds)],
-        required: vec!["ssl_requested_without_tls", "rejected", "accepted", "pipelined_behind_handshake", "layout_320", "non_utf8_users", "rejected_with_truncated_tail"],
+        families: vec![Box::new(CapsSweep { tls: false }), Box::new(CapsSweep { tls: true }), Box::new(Users::new()), Box::new(SeqIds), Box::new(Tails)],
+        required: vec!["pipelined_tails", "accepted_then_connection_error", "ssl_requested_without_tls", "rejected", "accepted", "pipelined_behind_handshake", "layout_320", "non_utf8_users", "rejected_with_truncated_tail"],
     }
 }
